@@ -182,7 +182,14 @@ fn _parse_with_lexer_ctx(lexer: &mut Lexer, r: &impl Resolve, ctx: Option<&Conte
             check(flags, ParseFlags::INTEGER)?;
             // We are probably in an array of numbers - it's not a reference anyway
             lexer.set_pos(pos_bk); // (roll back the lexer first)
-            Primitive::Integer(t!(first_lexeme.to::<i32>()))
+            match first_lexeme.to::<i32>() {
+                Ok(i) => Primitive::Integer(i),
+                // an integer beyond the implementation limit is converted to a real number
+                Err(_) => {
+                    check(flags, ParseFlags::NUMBER)?;
+                    Primitive::Number(t!(first_lexeme.to::<f32>(), first_lexeme.to_string()))
+                }
+            }
         }
     } else if let Some(s) = first_lexeme.real_number() {
         check(flags, ParseFlags::NUMBER)?;
